@@ -142,10 +142,11 @@ const (
 	hPoolPingFail
 	hPoolDoFail
 	hHoldPastLifetime
+	hHoldWhileOtherIdles
 	nHolderProgs
 )
 
-var holderNames = [nHolderProgs]string{"ok", "exception", "transport-error", "cancelled", "double-release", "pool.Do", "pool.Ping", "two-queries", "stale-release-after-reacquire", "pool.Ping-on-broken-transport", "pool.Do-on-broken-transport", "hold-past-lifetime"}
+var holderNames = [nHolderProgs]string{"ok", "exception", "transport-error", "cancelled", "double-release", "pool.Do", "pool.Ping", "two-queries", "stale-release-after-reacquire", "pool.Ping-on-broken-transport", "pool.Do-on-broken-transport", "hold-past-lifetime", "hold-while-other-idles"}
 
 type poolScn struct {
 	maxConns int
@@ -282,6 +283,35 @@ func bodyPool(s poolScn) Body {
 				w.ev("%s:do:%s", h, errClass(derr))
 				w.ev("%s:release", h)
 				c.Release()
+				return
+			}
+			if prog == hHoldWhileOtherIdles {
+				// the holder takes two connections, gives one back and keeps the other for a long
+				// time: the idle one is past its idle time at several health-check ticks and has to be
+				// destroyed although the pool is never completely at rest
+				c1, aerr := p.Acquire(ctx)
+				if aerr != nil {
+					w.ev("%s:acquire-failed:%v", h, aerr)
+					return
+				}
+				c2, aerr := p.Acquire(ctx)
+				if aerr != nil {
+					w.ev("%s:acquire-failed:%v", h, aerr)
+					c1.Release()
+					return
+				}
+				derr := do(h, c1, h+"-q1", "SELECT 1", ctx)
+				w.ev("%s:do:%s", h, errClass(derr))
+				derr = do(h+"b", c2, h+"b-q1", "SELECT 1", ctx)
+				w.ev("%sb:do:%s", h, errClass(derr))
+				c2.Release()
+				before := w.openConns()
+				vsched.Quiet(func() { simnet.Gap(3*idle + 3*period) })
+				if after := w.openConns(); before >= 2 && after >= before {
+					setViol(name+"/idle-connection-not-destroyed-while-pool-busy", fmt.Sprintf("%d connections open before and %d after %v with one of them idle all the time (idle time %v, health-check period %v) while holder %s kept the other", before, after, 3*idle+3*period, idle, period, h))
+				}
+				w.ev("%s:release", h)
+				c1.Release()
 				return
 			}
 			if prog == hHoldPastLifetime {
@@ -518,7 +548,7 @@ func (w *poolWorld) openConns() int {
 
 // C11 — a pooled connection has one holder; dead or expired ones are never reissued.
 func C11(c *vk.Ctx) {
-	c.Rule("pool scenarios = N in {2, 3} holder threads x MaxConns in {1, 2}, each holder running one program of {Acquire-Do(ok)-Release, Do answered by an exception, Do ending in a transport error, Do with a cancelled context, Release three times, Pool.Do, Pool.Ping, Pool.Ping / Pool.Do on a transport that broke while the connection was idle followed by Acquire-Do-Release, two queries, release-reacquire-release the first handle again (also after the connection went round n acquire-release cycles in between, for every n <= 130)}, optionally a thread calling Pool.Close concurrently; plus health-check scenarios (period 1 s, idle 2 s, lifetime 5 s of fake time) and a holder that keeps a connection past MaxConnLifetime while the health check is an hour away, plus scenarios on a transport whose Close tears the connection down but returns an error. The real chpool + puddle (instrumented at API granularity) + ch.Dial run under the scheduler; what a holder does on its own connection is a quiet region. All interleavings of the pool-level steps up to the preemption bound (quick 1, thorough 2). Oracle: never two holders of one connection, a connection released broken is never acquired again and never written to, open connections <= MaxConns at every dial, no panic on repeated Release, nothing acquired at the end, after Close every dialled connection is closed, idle connections are destroyed by the health check, a connection released after its lifetime is not handed out again. distinct_nontrivial = executions.")
+	c.Rule("pool scenarios = N in {2, 3} holder threads x MaxConns in {1, 2}, each holder running one program of {Acquire-Do(ok)-Release, Do answered by an exception, Do ending in a transport error, Do with a cancelled context, Release three times, Pool.Do, Pool.Ping, Pool.Ping / Pool.Do on a transport that broke while the connection was idle followed by Acquire-Do-Release, two queries, release-reacquire-release the first handle again (also after the connection went round n acquire-release cycles in between, for every n <= 130)}, optionally a thread calling Pool.Close concurrently; plus health-check scenarios (period 1 s, idle 2 s, lifetime 5 s of fake time) a holder that keeps a connection past MaxConnLifetime while the health check is an hour away, and a holder that keeps one connection busy while another one idles past its idle time, plus scenarios on a transport whose Close tears the connection down but returns an error. The real chpool + puddle (instrumented at API granularity) + ch.Dial run under the scheduler; what a holder does on its own connection is a quiet region. All interleavings of the pool-level steps up to the preemption bound (quick 1, thorough 2). Oracle: never two holders of one connection, a connection released broken is never acquired again and never written to, open connections <= MaxConns at every dial, no panic on repeated Release, nothing acquired at the end, after Close every dialled connection is closed, idle connections are destroyed by the health check, a connection released after its lifetime is not handed out again. distinct_nontrivial = executions.")
 	quick := c.Quick()
 	bound := 1
 	if !quick {
@@ -538,7 +568,7 @@ func C11(c *vk.Ctx) {
 		scns = append(scns, poolScn{maxConns: 1, progs: []int{hTransport, hPoolDo}, closer: true})
 	} else {
 		for _, mc := range []int{1, 2} {
-			for a := 0; a < hHoldPastLifetime; a++ { // (that program needs its own pool options)
+			for a := 0; a < hHoldPastLifetime; a++ { // (the later programs need their own pool options)
 				for b := a; b < hHoldPastLifetime; b++ {
 					scns = append(scns, poolScn{maxConns: mc, progs: []int{a, b}})
 				}
@@ -559,6 +589,8 @@ func C11(c *vk.Ctx) {
 		// lifetime without the health check's help (its period is an hour): the release path alone
 		// has to retire a connection that is older than MaxConnLifetime
 		poolScn{maxConns: 1, progs: []int{hHoldPastLifetime}, period: time.Hour, idleTime: time.Hour, lifetime: 3 * time.Second},
+		// idle time enforced by the health check while another connection is in use all the time
+		poolScn{maxConns: 2, progs: []int{hHoldWhileOtherIdles}, period: time.Second, idleTime: 2 * time.Second, lifetime: time.Hour},
 	)
 	// a transport whose Close tears the connection down but reports an error: a client that
 	// closed itself (transport error, cancelled query) must still not be reissued
